@@ -2,6 +2,5 @@ package main
 
 import "errors"
 
-func driveMutex(w *writer) error  { return errors.New("not built yet") }
 func driveStream(w *writer) error { return errors.New("not built yet") }
 func driveLife(w *writer) error   { return errors.New("not built yet") }
